@@ -47,6 +47,14 @@ def step (_ : Unit) (ws : List String) : Unit × String :=
     match x.mapM parseArg, y.mapM parseArg with
     | some a, some b => ((), summ (WriteCmd.writeCmd WriteCmd.exactLead a ++ WriteCmd.writeCmd WriteCmd.exactLead b))
     | _, _ => ((), "bad-op")
+  | "wcx" :: _ :: as =>     -- the same slice written twice: both frames, then the slice afterwards
+    match as.mapM parseArg with
+    | some args => let r := WriteCmd.writeTwice WriteCmd.exactLead args; ((), summ r.1 ++ " | " ++ showArgv r.2)
+    | none => ((), "bad-op")
+  | "!rtx" :: _ :: as =>    -- oracle: both frames decode to the argv and the caller's slice is unchanged
+    match as.mapM parseArg with
+    | some args => ((), showArgv args ++ " / " ++ showArgv args ++ " | " ++ showArgv args)
+    | none => ((), "bad-op")
   | "!rt" :: _ :: as =>     -- oracle: the decoded argv must be the written argv
     match as.mapM parseArg with
     | some args => ((), showArgv args)
